@@ -7,6 +7,12 @@ claimed = {
  "C02": ("One-step (inductive) obligations of the append-only chain on the real store wrappers, from an arbitrary last beacon: every path of appendStore.Put / schemeStore.Put decided by SMT within the stated byte-length bounds.", "§5 C02"),
  "C01": ("Every path on which the real code forwards a partial to the aggregator, aggregates, or stores a synced beacon is executed symbolically with an ideal threshold-signature model at the kyber boundary; the harness re-verifies what reached the observation point (base store, aggregator queue) with its own verifier call.", "§5 C01"),
  "C03": ("The real aggregation loop (runAggregator as a modelled goroutine, partialCache, tbls.Recover from the dependency, real store stack) fed with symbolic partial packets; ghost state counts distinct valid partials; SMT decides every branch.", "§5 C03"),
+ "C04": ("broadcastNextPartial and the real Handler.run loop (goroutine, select, catch-up sleep on a fake clock) executed symbolically for an arbitrary tick and stored head; every partial leaving through the fake client is compared with the node's clock; intake of partials beyond clock+1 is refused (shared harness with C01).", "§5 C04"),
+ "C05": ("Bounded step obligations only: the five mechanisms the property names (tick emission, gap-triggered sync, catch-up emission, aggregation + notification, manager restart of stuck syncs) are one-step SMT-checked assertions on the real single-node code; 'eventually', the catch-up rate and all multi-node behaviour are NOT decided.", "§5 C05, §6"),
+ "C07": ("Switch point of share/group in the vault through the real callback store, rejection of old-epoch partials after the switch, unchanged chain info, refusal of misaligned transition times; chain-hash independence from membership is C17.", "§5 C07"),
+ "C08": ("Every DBState transition method and ValidateProposal executed symbolically from an arbitrary stored state against the protocol's transition relation and rule list kept in the harness.", "§5 C08"),
+ "C09": ("messageForSigning over single-field perturbations of the terms, and Process.Packet on forged proposals whose signer and listed keys are symbolic choices, with ideal signatures at the kyber boundary.", "§5 C09"),
+ "C14": ("DKG endpoint functions on arbitrary protobuf-valid packets (every nested pointer nil/non-nil, every oneof variant) run as a request goroutine under a modelled recovery interceptor; the engine itself reports self-deadlocks, blocked-forever requests, escaped panics, leaked locks.", "§5 C14"),
  "C10": ("SyncManager.Sync / tryNode / CheckPastBeacons executed symbolically against peers whose behaviour is a symbolic choice, in every peer order; only verified in-order beacons reach the base store.", "§5 C10"),
  "C11": ("beacon.SyncChain over the real callbackStore and in-memory store with an environment writer appending at every store access point; the interleaving of appends with scan and live phase is a set of symbolic integers.", "§5 C11"),
  "C12": ("callbackStore with a consumer that never returns, queue filled to the real capacity; partialCache flooded by symbolic (signer, round, previous) sequences with MaxPartialsPerNode scaled to 3.", "§5 C12"),
